@@ -156,15 +156,22 @@ def check_property(prop, tier, base_seed):
 
     known_lines = []
     known_cases = {}
+    regressions = []
     for entry in load_known():
-        if entry.get("property") != pid or entry.get("status") != "known":
+        if entry.get("property") != pid or "case" not in entry:
             continue
         res = replay_case(engine, pid, entry["case"])
-        if res is not None:
-            known_lines.append(f"KNOWN-FINDING: property={pid} {entry['id']}: {entry['what']}")
-            known_cases[case_digest(entry["case"])] = entry["id"]
-        else:
-            print(f"note: known finding {entry['id']} no longer reproduces on this tree")
+        if entry.get("status") == "known":
+            if res is not None and res[0] == entry.get("label", res[0]):
+                known_lines.append(
+                    f"KNOWN-FINDING: property={pid} {entry['id']}: {entry['what']}")
+                known_cases[case_digest(entry["case"])] = entry["id"]
+            elif res is not None:
+                regressions.append((entry, res))  # fails, but not the way recorded
+            else:
+                print(f"note: known finding {entry['id']} no longer reproduces on this tree")
+        elif res is not None:
+            regressions.append((entry, res))  # a repaired defect is back
     for line in known_lines:
         print(line)
 
@@ -184,6 +191,11 @@ def check_property(prop, tier, base_seed):
     pending = {}
     next_batch = 0
     capped = False
+    if regressions:
+        entry, res = regressions[0]
+        failure = {"case": entry["case"], "label": res[0], "message": res[1] +
+                   f" [witness of finding {entry['id']}]", "batch": -1, "batch_seed": 0}
+        n_batches = 0
     try:
         with cf.ProcessPoolExecutor(max_workers=WORKERS, mp_context=ctx) as pool:
             while True:
